@@ -231,6 +231,18 @@ def check_bytes(ctx):
             for a in ac:
                 o = A.origins(body, R.arg_expr(body, body.nodes[a], 1))
                 ctx.check(any(("call", x) in o for x in sm), inst, "PROVENANCE", body.path, "the amount debited is that sum", body.where(a))
+            # ... in one critical section: the sizes are summed under the very bucket guard under which the bucket is emptied.
+            # Summing under one acquisition and clearing under another lets an insert land in between (dropped, never debited:
+            # phantom bytes for ever) or a remove (debited twice: the counter wraps).
+            bl0 = L.lock_graph(ctx.prog).bl[body.path]
+            for x in sm:
+                ctx.check("L_cb" in bl0.must_classes(x), inst, "HELD", body.path, "the sizes of a bucket are summed with its lock held", body.where(x))
+            acq = [n_ for n_, c_ in bl0.acq.items() if c_ == "L_cb"]
+            for x in sm:
+                r_, _ps = A.reach(body, A.succs(body, x), stop_at=frozenset(ms))
+                again = [q for q in acq if q in r_ and q != x]
+                ctx.check(not again, inst, "HELD", body.path, "no second acquisition of the bucket lock between summing the sizes and emptying the bucket", body.where(x),
+                          None if not again else {"reacquired_at": body.where(again[0])})
         n_mut += len(ms)
         # bucket write lock held at the mutation
         g = L.lock_graph(ctx.prog)
